@@ -126,9 +126,9 @@ Proof.
 Qed.
 
 (* ------------------------------------------------------------------ the theorem *)
-Lemma agree_implies_spec_ok k : agree k = true -> spec_ok k = true.
+Lemma agree1_implies_spec_ok1 k : agree1 k = true -> spec_ok1 k = true.
 Proof.
-  destruct k as [m kh kw out|m kh kw out|m kh kw g out|m total edge border buffer buffed|m out|m g v]; cbn [agree spec_ok]; intros H.
+  destruct k as [m kh kw out|m kh kw out|m kh kw g out|m total edge border buffer buffed|m out|m g v|m]; cbn [agree1 spec_ok1]; intros H.
   - apply rmask_eqb_eq in H. subst out.
     destruct (rectb m && odd_pos kh && odd_pos kw) eqn:Gd; cbn [negb orb]; [|reflexivity].
     rewrite !andb_true_iff in Gd. destruct Gd as ((Hr & Hkh) & Hkw).
@@ -153,11 +153,5 @@ Proof.
     rewrite edge_slim_accepted, border_exact, zl_eqb_refl. rewrite <- border_exact.
     rewrite set_views_edge_accepted, set_views_border_accepted. cbn [andb].
     rewrite edge_buffed_is_spec by assumption. apply mask_eqb_refl.
-Qed.
-
-Lemma check_zero_iff_agree k : check k = 0%nat <-> agree k = true.
-Proof.
-  unfold check. split.
-  - destruct (agree k), (spec_ok k); cbn; intros H; try discriminate; reflexivity.
-  - intros H. rewrite H, (agree_implies_spec_ok k H). reflexivity.
+  - reflexivity.
 Qed.
